@@ -20,7 +20,9 @@ MenuMix == {AddK("k1", "a"), R0("list"), SignK("k1"), R0("malformed"), R0("zero"
 MenuLock == {AddK("k1", "a"), R0("list"), SignK("k1"), LockP("p"), UnlockP("p")}
 MenuTwoKeys == {AddK("k1", "a"), AddK("k2", "b"), RemK("k1"), R0("list"), R0("removeall")}
 MenuQ4 == {AddK("k1", "a"), R0("list"), R0("unknown"), R0("oversize")}
-MenuLive == {R0("list"), R0("unknown"), R0("oversize")}
+MenuLive == {R0("list"), R0("oversize")}
+MenuMix4 == {AddK("k1", "a"), SignK("k1"), R0("malformed"), R0("zero")}
+MenuLock4 == {AddK("k1", "a"), R0("list"), LockP("p"), UnlockP("p")}
 MenuAll == MenuAgent \cup MenuBad \cup MenuStub
 MenuMut == {R0("list"), SignK("k1"), R0("unknown"), R0("oversize")}
 
